@@ -2,7 +2,7 @@
 # tools/round_eval.sh <round> <Cnn>...  - confirm round-<n> seeds in /tmp/wt-Cnn and run the checks on them
 r=$1; shift
 for c in "$@"; do
-  ( cd /verif && /venv/bin/python tools/seed_eval.py S-$c-$r $c /tmp/wt-$c patch$r.diff demo${r}_ > /tmp/eval_${c}_$r.log 2>&1 ) &
+  ( cd /verif && /venv/bin/python tools/seed_eval.py S-$c-$r $c ${WT:-/tmp/wt}-$c patch$r.diff demo${r}_ > /tmp/eval_${c}_$r.log 2>&1 ) &
 done
 wait
 for c in "$@"; do echo "== $c"; cat /tmp/eval_${c}_$r.log; done
